@@ -398,11 +398,15 @@ pub fn silence_panics() {
         // an arbiter thread) carry this marker
         let expected = info.payload().downcast_ref::<&str>().map_or(false, |s| s.contains("(expected-by-harness)"))
             || info.payload().downcast_ref::<String>().map_or(false, |s| s.contains("(expected-by-harness)"));
-        if !quiet && !expected {
+        if !quiet && !expected && !ALL_QUIET.load(Ordering::SeqCst) {
             eprintln!("MACHINERY-PANIC: {info}");
         }
     }));
 }
+
+/// While set, no panic is reported on stderr (scenarios that kill threads of the system under test
+/// on purpose; the collateral panics happen on threads the harness does not own).
+pub static ALL_QUIET: std::sync::atomic::AtomicBool = std::sync::atomic::AtomicBool::new(false);
 
 thread_local! {
     static QUIET_PANICS: std::cell::Cell<bool> = const { std::cell::Cell::new(false) };
